@@ -267,6 +267,43 @@ def comment_witness(pattern, repl):
     return None
 
 
+PROGRAM_LINES_WITHOUT_HASH = ['VALUE = 100 // 7', 'addi t0, t0, 1 ; note', 'lw a0, 4(sp) ! note', "li a0, '/' @ note", 'li a0, 1 -- note', 'a = 6 /* c */ + 1',
+                              'b = 7 % 3', 'c = d * 2', 'jal zero, loop', 'string a // b', 'bytes 1 2 3', 'x = (1 << 4) | 3', 'y = ~x & 0xff']
+
+
+def ends_with_rest_of_line(tree):
+    """The pattern ends in `anything up to the end of the line` (greedy, or anchored): whatever it starts at, it removes the
+    rest of the line."""
+    items = flatten_groups(list(tree))
+    while items and (items[-1][0] == sre.AT and items[-1][1] in (sre.AT_END, sre.AT_END_STRING) or _is_optional_newline(items[-1])):
+        items = items[:-1]
+    if not items:
+        return False
+    op, av = items[-1]
+    if op not in (sre.MAX_REPEAT, sre.MIN_REPEAT) or av[1] != sre.MAXREPEAT:
+        return False
+    sub = flatten_groups(list(av[2]))
+    return len(sub) == 1 and _is_any_to_eol(sub[0])
+
+
+def comment_start_witness(pattern, repl):
+    """A program line without any `#` that re.sub(pattern, repl, line) cuts short (pattern and replacement are constants of the
+    analysed module; only the library engine runs): the pattern starts comments at something that is program text.  -> (line,
+    result) or None."""
+    try:
+        rx = re.compile(pattern)
+    except re.error:
+        return None
+    for line in PROGRAM_LINES_WITHOUT_HASH:
+        try:
+            got = rx.sub(repl, line)
+        except (re.error, IndexError):
+            return None
+        if got.split() != line.split():
+            return line, got
+    return None
+
+
 def starts_with_hash(tree):
     items = _skip_optional_space(flatten_groups(list(tree)))
     return bool(items) and items[0] == (sre.LITERAL, ord('#'))
@@ -1114,6 +1151,12 @@ class Flow:
             if w is not None:
                 return [Op('hash-other', pattern, w, node=node)]
             return [Op('unknown', 're.sub({!r}, {!r}): removes comments on the sample lines, not recognised in general'.format(pattern, repl), node=node)]
+        if ends_with_rest_of_line(tree) and all(c.isspace() for c in repl):
+            # comment-shaped, but not `# to the end of the line`: does it start at program text?
+            w = comment_start_witness(pattern, repl)
+            if w is not None:
+                also_hash = comment_witness(pattern, repl) is None
+                return [Op('comment-extra', pattern, w, also_hash, node=node)]
         chars, _cap = regex_chars(tree)
         lo, _hi = tree.getwidth()
         if (chars is not None and lo >= 1 and repl and all(_sepish(c) for c in repl)
@@ -1134,6 +1177,15 @@ class Flow:
             self.event('reg-lookup', args[0], node, env)
             return Unk('register number')
         if isinstance(recv, (Text, TokEl)) and attr in ('startswith', 'endswith', 'isspace', 'isdigit', 'isalpha', 'isidentifier'):
+            if attr == 'startswith' and isinstance(recv, Text) and len(args) == 1:
+                prefixes = None
+                if isinstance(args[0], K) and isinstance(args[0].value, str):
+                    prefixes = (args[0].value,)
+                elif isinstance(args[0], K) and isinstance(args[0].value, tuple) and all(isinstance(x, str) for x in args[0].value):
+                    prefixes = args[0].value
+                elif isinstance(args[0], Tup) and all(isinstance(x, K) and isinstance(x.value, str) for x in args[0].items):
+                    prefixes = tuple(x.value for x in args[0].items)
+                self.event('startswith', (recv, prefixes), node, env)
             return Truth(attr, recv)
         if isinstance(recv, Text):
             return self.text_method(recv, attr, args, kw, node)
@@ -1195,7 +1247,10 @@ class Flow:
             sep = args[0] if args else kw.get('sep', K(None))
             limited = len(args) > 1 or 'maxsplit' in kw
             if recv.root == 'source':
-                return Unk('split of the source text (only splitlines() is followed)')
+                if sep == K('\n') and not limited and not recv.ops:
+                    # the same positions as splitlines() for \n / \r\n files; each line may still end in its carriage return
+                    return Seq('physical', Text('raw', (Op('cr-tail', node=node),)), False, "split('\\n')")
+                return Unk('split of the source text (only splitlines() and split(newline) are followed)')
             if sep == K(None):
                 if limited:
                     return Unk('split with maxsplit')
@@ -1945,6 +2000,7 @@ def check_lexer(rep, facts):
     flow = run_function(facts, fn, {p: LineV(Text('contents'), Unk('number'))})
     if not flow.returns:
         raise AnalysisError('lex_tokens: no return statement found')
+    info = LexerFacts()
     mains = []
     for value, guards, node in flow.returns:
         if not isinstance(value, LT):
@@ -1962,6 +2018,7 @@ def check_lexer(rep, facts):
             if m is None:
                 raise AnalysisError('lex_tokens: a literal token list is returned without a pattern match on the line text: ' + unparse(node)[:80])
             decide_literal_line(rep, toks.items[0].value, m, node)
+            info.literal_lines.append((toks.items[0].value, node, tail_is_verbatim(m)))
             rep.count('lexer paths analysed')
         else:
             raise AnalysisError('lex_tokens: cannot follow the line text to the returned token list in `{}` ({!r})'.format(unparse(node)[:80], toks))
@@ -1971,7 +2028,63 @@ def check_lexer(rep, facts):
     for toks, guards, node in mains:
         rep.count('lexer paths analysed')
         pats.append(decide_token_path(rep, toks, node))
-    return pats[0]
+    info.separator = pats[0]
+    return info
+
+
+def tail_is_verbatim(m):
+    """Does the text captured from a custom-lexed line run to the very end of the line text, carriage return included?
+    True / False / None (not decided)."""
+    if any(o.kind == 'strip' and o.args[0] in ('right', 'both') and (o.args[1] is None or '\r' in o.args[1]) for o in m.text.ops):
+        return False
+    items = flatten_groups(list(regex_ast(m.rx.pattern)))
+    while items and items[-1][0] == sre.AT:
+        items = items[:-1]
+    if not items:
+        return None
+    op, av = items[-1]
+    if op in (sre.MAX_REPEAT, sre.MIN_REPEAT):
+        sub = flatten_groups(list(av[2]))
+        if len(sub) == 1:
+            it = sub[0]
+            if it[0] == sre.ANY:
+                return True                       # `.` matches a carriage return
+            if it[0] == sre.IN:
+                av2 = list(it[1])
+                if av2 and av2[0][0] == sre.NEGATE:
+                    return not any(i[0] == sre.LITERAL and i[1] == 13 for i in av2[1:])
+                cats = {str(i[1]).replace('UNI_', '') for i in av2 if i[0] == sre.CATEGORY}
+                if 'CATEGORY_SPACE' in cats or any(c <= cats for c in _COMPLEMENTS):
+                    return True
+                return None
+            if it[0] == sre.NOT_LITERAL:
+                return it[1] != 13
+    return None
+
+
+def check_line_ends(rep, reader, lexer):
+    """R13.5: the same file with \\r\\n line ends assembles like the one with \\n line ends.  When the reader cuts the source at
+    newlines only, each line keeps its carriage return; that is harmless where the line is split at whitespace, and wrong where a
+    custom-lexed line kind takes the rest of the line verbatim."""
+    if reader.keeps_cr is None:
+        rep.ok('R13.5.line-ends', 'no line keeps a carriage return (splitlines(), or the line is stripped of it)', nontrivial=False)
+        return
+    verbatim = sorted([(k, n) for k, n, v in lexer.literal_lines if v is True], key=lambda kn: (kn[0] != 'string', kn[0]))
+    undecided = [(k, n) for k, n, v in lexer.literal_lines if v is None]
+    if not verbatim and undecided:
+        raise AnalysisError('lines may keep a carriage return (the source is cut at newlines only) and whether the `{}` line kind captures it is not decided'.format(undecided[0][0]))
+    node = reader.keeps_cr
+    rep.check(not verbatim, 'R13.5.line-ends', 'a carriage return left on a line never reaches a token',
+              lambda: Finding('R13.5.line-ends', 'read_lines', node,
+                              'the source is cut at newlines only, so with \\r\\n line ends every line keeps its carriage return; the `{}` line kind takes the rest '
+                              'of the line verbatim, so the same file saved with \\r\\n and with \\n line ends assembles differently (a \\r inside the literal)'.format(verbatim[0][0]),
+                              line=node.lineno))
+
+
+class LexerFacts:
+    def __init__(self):
+        self.literal_lines = []        # (keyword, node, tail verbatim: True / False / None)
+        self.separator = None
 
 
 def decide_literal_line(rep, keyword, m, ret):
@@ -2028,6 +2141,13 @@ def decide_token_path(rep, toks, ret):
         raise AnalysisError('lex_tokens: the separator {} can consume characters the rules cannot enumerate'.format(sep.text))
     kinds = describe_ops(text.ops)
     rep.sample({'lexer_chain': kinds, 'separator': sep.text, 'empty_tokens_dropped': toks.nonempty})
+    for o in text.ops:
+        if o.kind == 'comment-extra':
+            line, got = o.args[1]
+            rep.fail(Finding('R13.4.comment-start', 'lex_tokens', o.node or sp,
+                             'the pattern {!r} removes text to the end of the line starting at something that is not `#`: the program line {!r} is cut to {!r}; '
+                             'only `#` starts a comment'.format(o.args[0], line, got), line=getattr(o.node or sp, 'lineno', None)),
+                     instance='only `#` starts a comment')
     unknown = [o for o in text.ops if o.kind == 'unknown' or o.kind == 'case']
     if unknown:
         raise AnalysisError('lex_tokens: the line text is rewritten by an operation outside the rules before it is split: {}'.format(
@@ -2040,7 +2160,7 @@ def decide_token_path(rep, toks, ret):
     extra_seps = set()
     deleted = []
     for i, o in enumerate(text.ops):
-        if o.kind == 'comment':
+        if o.kind == 'comment' or (o.kind == 'comment-extra' and o.args[2]):
             if comment_at is None:
                 comment_at = i
                 for b in text.ops[:i]:
@@ -2188,6 +2308,7 @@ def check_reader(rep, facts):
     lines = [e for e in flow.events if e[0] == 'Line']
     if not lines:
         raise AnalysisError('anchor vanished: no Line(file, number, contents) is built by read_lines (or a helper it calls)')
+    keeps_cr = None
     for _kind, v, node, guards, _stack in lines:
         rep.count('Line constructions analysed')
         num, contents = v.number, v.contents
@@ -2195,10 +2316,12 @@ def check_reader(rep, facts):
             raise AnalysisError('read_lines: cannot follow the line number of `{}` to a position in the list of physical lines ({!r})'.format(unparse(node)[:80], num))
         if num.seq.kind != 'physical':
             raise AnalysisError('read_lines: line numbers count the elements of {!r}, not of the physical lines of the source'.format(num.seq.origin))
-        if not (isinstance(contents, Text) and contents.root == 'raw' and all(o.kind == 'strip' for o in contents.ops)):
+        if not (isinstance(contents, Text) and contents.root == 'raw' and all(o.kind in ('strip', 'cr-tail') for o in contents.ops)):
             raise AnalysisError('read_lines: the contents of `{}` are not the text of the numbered physical line ({!r})'.format(unparse(node)[:80], contents))
         if contents != num.seq.elem and contents.root != num.seq.elem.root:
             raise AnalysisError('read_lines: number and contents of a Line come from different lists')
+        if keeps_carriage_return(contents):
+            keeps_cr = node
         ok = not num.seq.filtered and not num.late
         rep.check(ok, 'R13.5.blank-lines', 'line numbers are taken from the unfiltered list of physical lines',
                   lambda: Finding('R13.5.blank-lines', 'read_lines', node,
@@ -2214,7 +2337,64 @@ def check_reader(rep, facts):
         test, truth, genv = guards[-1]
         if isinstance(test, ast.expr) and is_blank_test(flow, test, truth, genv):
             skipped = True
-    return skipped
+    check_reader_directives(rep, flow)
+    return ReaderFacts(skipped, keeps_cr)
+
+
+class ReaderFacts:
+    """What check_reader established: truthy when the reader skips blank lines itself; keeps_cr = the Line construction whose
+    contents may still end in a carriage return (the source was cut at newlines only and nothing stripped the line), or None."""
+
+    def __init__(self, skips_blank, keeps_cr):
+        self.skips_blank, self.keeps_cr = skips_blank, keeps_cr
+
+    def __bool__(self):
+        return bool(self.skips_blank)
+
+
+def keeps_carriage_return(text):
+    keeps = False
+    for o in text.ops:
+        if o.kind == 'cr-tail':
+            keeps = True
+        elif o.kind == 'strip' and o.args[0] in ('right', 'both') and (o.args[1] is None or '\r' in o.args[1]):
+            keeps = False
+    return keeps
+
+
+def check_reader_directives(rep, flow):
+    """R13.4: a line whose first non-blank character is `#` is a comment, whatever follows.  The reader recognises its directives
+    (include ...) by a prefix test on the raw line: no prefix may begin with `#`, and no leading `#` may be stripped before the
+    test - unless all the test does is skip the line."""
+    for kind, v, node, guards, _stack in flow.events:
+        if kind != 'startswith':
+            continue
+        recv, prefixes = v
+        if not (isinstance(recv, Text) and recv.root == 'raw') or prefixes is None:
+            continue
+        if any(o.kind not in ('case', 'strip', 'cr-tail') for o in recv.ops):
+            continue
+        hash_stripped = any(o.kind == 'strip' and o.args[0] in ('left', 'both') and o.args[1] is not None and '#' in o.args[1] for o in recv.ops)
+        commentish = [p for p in prefixes if p.lstrip().startswith('#')]
+        keywords = [p for p in prefixes if p.strip() and p.lstrip()[0].isalpha()]
+        if not commentish and not (hash_stripped and keywords):
+            rep.ok('R13.4.comment-lines', 'read_lines: the line prefixes {} do not reach into comment lines'.format(list(prefixes)), nontrivial=False)
+            continue
+        # which statement does the test guard?
+        cur, par = node, getattr(node, '_parent', None)
+        while par is not None and not isinstance(par, ast.stmt):
+            cur, par = par, getattr(par, '_parent', None)
+        if not (isinstance(par, ast.If) and any(n is node for n in ast.walk(par.test))):
+            raise AnalysisError('read_lines: a prefix test that reaches into comment lines ({}) is used in `{}`: not followed'.format(commentish or keywords, unparse(par)[:60] if par is not None else '?'))
+        body = [st for st in par.body if not isinstance(st, ast.Pass)]
+        if body and all(isinstance(st, ast.Continue) for st in body):
+            rep.ok('R13.4.comment-lines', 'read_lines: lines starting with `#` are only skipped', nontrivial=False)
+            continue
+        what = 'the prefix {!r}'.format(commentish[0]) if commentish else 'a prefix test after stripping leading `#` characters'
+        rep.fail(Finding('R13.4.comment-lines', 'read_lines', par.test,
+                         'the reader recognises a directive by {}: a line whose first non-blank character is `#` is a comment whatever follows, but '
+                         '`#{}...` is acted upon (a commented-out directive is executed)'.format(what, (keywords or ['include '])[0].strip()), line=node.lineno),
+                 instance='directives are not recognised in comment lines')
 
 
 # ================================================================================================================
